@@ -203,7 +203,8 @@ class Fn:
                 if e.attr not in self.fields: raise Unsupported("attribute .%s" % e.attr)
                 return "(%s).%s" % (self.expr(e.value), self.fields[e.attr])
         if isinstance(e, ast.BinOp):
-            ops = {ast.Add: "+", ast.Sub: "-", ast.Mult: "*", ast.Div: "/"}
+            ops = dict({ast.Add: "+", ast.Sub: "-", ast.Mult: "*", ast.Div: "/"})
+            for k, v in self.spec.get("binops", {}).items(): ops[getattr(ast, k)] = v
             if type(e.op) not in ops: raise Unsupported("operator %s" % type(e.op).__name__)
             return "(%s %s %s)" % (self.expr(e.left), ops[type(e.op)], self.expr(e.right))
         if isinstance(e, ast.UnaryOp):
@@ -247,9 +248,9 @@ class Fn:
     def call(self, e):
         args = [a for a in e.args]
         kw = {k.arg: k.value for k in e.keywords}
-        if any(isinstance(a, ast.Starred) for a in args) or None in kw:
-            raise Unsupported("star arguments")
         d = dotted(e.func)
+        if (any(isinstance(a, ast.Starred) for a in args) or None in kw) and not callable(self.calls.get(d)):
+            raise Unsupported("star arguments")
         # any(<gen>) / all(<gen>) / sum(<gen of bool>)
         if d in ("any", "all", "sum") and len(args) == 1 and isinstance(args[0], ast.GeneratorExp) and d not in self.calls:
             g = args[0]
@@ -413,6 +414,10 @@ class Fn:
         if isinstance(s, ast.Break):
             if in_loop == "fold": return "(let py_done := true\n %s)" % rest_value
             raise Unsupported("break outside a state loop")
+        if isinstance(s, (ast.Assign, ast.AnnAssign)):
+            tgt0 = s.targets[0] if isinstance(s, ast.Assign) and len(s.targets) == 1 else getattr(s, "target", None)
+            if dotted(tgt0) in self.spec.get("ignore_assign", ()):
+                return self.block(rest, rest_value, in_loop)
         m = self.mutation(s)
         if m is not None:
             var, val, raising = m
